@@ -85,7 +85,7 @@ def run(ctx):
     tier = "quick" if q else "thorough"
     # 1. the specification: printer / parser / evaluator theorems on every enumerated tree, style and value
     # 2. cases.  (the four TLC runs are independent; they run side by side: one 4-worker + three 1-worker JVMs)
-    nsim = 1 if q else 4                       # thorough: four seeded walks side by side (-seed ctx.seed -aril k)
+    nsim = 1 if q else 6                       # thorough: six seeded walks side by side (-seed ctx.seed -aril k)
     jobs = [
         lambda: lib.gen_cases(ctx, "TagExprGen", "TagExprGen_%s.cfg" % tier, out_name="cases.ndjson", timeout=2400),
         lambda: lib.spec_check(ctx, "TagExpr", "TagExpr_mc.cfg", workers=4, timeout=1500,
@@ -97,9 +97,9 @@ def run(ctx):
     if not q:
         jobs.append(lambda: lib.spec_check(ctx, "TagExpr", "TagExpr_mc3.cfg", workers=4, timeout=2400,
                                            note="every boolean-sorted tree with <=3 binary operators over all 13 operators"))
-    with concurrent.futures.ThreadPoolExecutor(max_workers=4 if q else 8) as ex:
+    with concurrent.futures.ThreadPoolExecutor(max_workers=4 if q else 10) as ex:
         futs = [ex.submit(j) for j in jobs]
-        sfuts = [ex.submit(simulate, ctx, "TagExprGen_sim_%s.cfg" % tier, 110 if q else 250, 8, "sim%d.ndjson" % k, k)
+        sfuts = [ex.submit(simulate, ctx, "TagExprGen_sim_%s.cfg" % tier, 110 if q else 400, 8, "sim%d.ndjson" % k, k)
                  for k in range(nsim)]
         done = [f.result() for f in futs]          # re-raises lib.Infra
         sdone = [f.result() for f in sfuts]
